@@ -256,6 +256,7 @@ func iosVRFSpace() *space {
 func iosSpaces(ctx *core.Ctx) []*space {
 	l := []*space{
 		c02ACLSpace("acl", 6, 3),
+		c02ACLSpace("acl4", 5, 4),
 		c02LogSpace(),
 		routePairSpace("IOS"),
 		iosVRFSpace(),
@@ -282,7 +283,7 @@ func init() {
 		return core.Meta{ID: "C02", Level: "model_checking",
 			Rule:        "states = distinct device-model states (per worker, summed); transitions = runs of the real planner; enumerated: all (device,target) pairs of the spaces acl (block structured, device printed with and without IOS-XE sequence numbers), acl-log (the same rule with none/log/log-input on either side, len<=4), rt, vrf, intf, crypto, corpus (ios_*.t) and a breadth-first chain of approves; the script is executed on the reference IOS model (sequence numbers, resequence, interface and crypto-map sub-modes); oracle: per managed interface the bound ACLs as sequences of maximal same-action runs (each a set), routes per VRF the target mentions, second compare silent for both print forms, empty script only for an equivalent device",
 			Assumptions: []string{"reference IOS model validated against the repository's DEVICE/NETSPOC/OUTPUT triples"},
-			Bounds:      map[string]any{"quick": "acl len<=3 over 6 lines", "thorough": "acl len<=4 over 8 lines"},
+			Bounds:      map[string]any{"quick": "acl len<=3 over 6 lines, len<=4 over 5 lines, log variants len<=4", "thorough": "acl len<=4 over 8 lines"},
 		}
 	}, 170*time.Second, 45*time.Minute)
 }
